@@ -38,6 +38,7 @@ def make(rng, ft, free_clusters, extra, fsinfo, root_entries=32, subdir_full=Fal
     sub_b, sub_t = add(b.tree, t.root, 'sub', is_dir=True)
     add(sub_b, sub_t, 'inner.txt', b'inner file content' * 20)
     add(b.tree, t.root, 'victim.dat', bytes(rng.getrandbits(8) for _ in range(1100)))
+    add(b.tree, t.root, 'empty.dat', b'')
     if subdir_full:
         # fill the sub-directory's only cluster completely (16 slots of 32 bytes in 512)
         k = 0
@@ -59,6 +60,8 @@ CASES = [
     ('append', lambda cs, k: dict(op='append', path='/victim.dat', data=b'A' * (k * cs)), True),
     ('truncate-grow', lambda cs, k: dict(op='truncate', path='/victim.dat', size=1100 + k * cs, buffering=0), True),
     ('seek-past-end', lambda cs, k: dict(op='seekwrite', path='/victim.dat', pos=1100 + k * cs, data=b'tail', buffering=0), True),
+    ('truncate-grow-empty', lambda cs, k: dict(op='truncate', path='/empty.dat', size=k * cs - 5, buffering=0), True),
+    ('seek-past-end-empty', lambda cs, k: dict(op='seekwrite', path='/empty.dat', pos=k * cs + 1, data=b'tail', buffering=-1), True),
     ('mkdir', lambda cs, k: dict(op='mkdir', path='/sub/newdir'), False),
     ('create-in-full-subdir', lambda cs, k: dict(op='write', path='/sub/a rather long new name.txt', data=b'', via='open'), False),
     ('rename-into-full-subdir', lambda cs, k: dict(op='rename', path='/keep1.bin', target='/sub/renamed with a long name.bin'), False),
@@ -147,7 +150,63 @@ def run_case(ctx, R, rng, FatFileSystem, ft, free, extra, fsinfo, label, mkop, k
             pass
 
 
+def root_full_case(ctx, R, rng, FatFileSystem, ft, free_slots):
+    """16-slot root directory with `free_slots` unused slots; creating a name that needs 4 slots"""
+    g = fatimg.Geometry(ft, 40, spc=1, bps=512, nfats=2, root_entries=16, type_string=True)
+    b = fatimg.Builder(g, rng)
+    t = fatops.Tree()
+    k = 0
+    while len(b.dirs[id(b.tree)]['slots']) < 16 - free_slots:
+        nm = f'R{k}.BIN'
+        data = bytes([k]) * 10
+        b.add(b.tree, nm, (nm.split('.')[0].encode().ljust(8), b'BIN'), data=data, lfn=False)
+        t.root['children'][nm] = {'kind': 'file', 'name': nm, 'data': bytearray(data)}
+        k += 1
+    op = dict(op='write', path='/a name needing four slots in all.txt', data=b'payload', via='open')   # 3 long-name records + 1
+    buf = bytearray(b'\xA5' * GUARD) + b.img + bytearray(b'\x5A' * GUARD)
+    info = dict(fat_type=ft, free_root_slots=free_slots, op=jsonable_op(op), case='root-full')
+    with warnings.catch_warnings():
+        warnings.simplefilter('ignore')
+        fs = FatFileSystem(memoryview(buf)[GUARD:len(buf) - GUARD])
+    try:
+        after = copy.deepcopy(t)
+        fatops.apply_model(after, op)
+        got = fatops.apply_impl(fs, op)
+        ctx.case((ft, 'root-full', free_slots), got == 'ENOSPC', f'root-full-{got}')
+        vol = bytes(buf[GUARD:len(buf) - GUARD])
+        # nobodd also writes an end-of-directory record after the new entries, so it needs one slot
+        # more than the entries themselves; exactly 4 free slots may go either way
+        want = 'ok' if free_slots >= 5 else 'ENOSPC'
+        if got != want and free_slots != 4:
+            ctx.violation('fs.enospc/root-full/outcome', f'creating a 4-slot name with {free_slots} free root slots on {ft} gave {got}, expected {want}', info)
+            return
+        probs = fatspec.spec_wf(R, vol)
+        if probs:
+            ctx.violation('fs.enospc/root-full/structural:' + str(probs[0][0]), f'root directory with {free_slots} free slots ({got}): {probs[:3]}', info)
+            return
+        geom, spec = fatspec.spec_abs(R, vol)
+        d = tree_diff((after if got == 'ok' else t).canon(), canon_spec(spec))
+        if d:
+            ctx.violation('fs.enospc/root-full/tree', f'root directory with {free_slots} free slots ({got}): {d}', info)
+            return
+        if got == 'ENOSPC':
+            # free slots, then it must work
+            for j in range(5):
+                fatops.apply_impl(fs, dict(op='unlink', path=f'/R{j}.BIN'))
+                del t.root['children'][f'R{j}.BIN']
+            again = fatops.apply_impl(fs, op)
+            probs = fatspec.spec_wf(R, bytes(buf[GUARD:len(buf) - GUARD]))
+            if again != 'ok' or probs:
+                ctx.violation('fs.enospc/root-full/not-usable-after-freeing', f'after deleting five entries the creation gives {again}, problems {probs[:3]}', info)
+    finally:
+        try:
+            fs.close()
+        except Exception:
+            pass
+
+
 def run(ctx, build):
+    model_correspondence(ctx)
     from nobodd.fs import FatFileSystem
     R = ctx.runner('Fat')
     rng = ctx.rng
@@ -165,12 +224,17 @@ def run(ctx, build):
                              subdir_full=(label in ('create-in-full-subdir', 'rename-into-full-subdir')))
         # fixed-size root directory running out of slots
         if ft != 'fat32':
-            for nfree_slots in (0, 1, 2, 3):
-                g_entries = 16
-                run_case(ctx, R, rng, FatFileSystem, ft, 6, extra, fsinfo, f'root-slots-{nfree_slots}',
-                         (lambda n: (lambda cs, k: dict(op='write', path='/' + 'n' * 30 + '.txt', data=b'hello', via='open')))(nfree_slots),
-                         0, root_entries=16 if nfree_slots < 2 else 32)
+            for free_slots in (0, 1, 2, 3, 4, 5):
+                root_full_case(ctx, R, rng, FatFileSystem, ft, free_slots)
     ctx.sample(dict(case='append', fat_type='fat12', free_clusters=1, payload_clusters=3))
+
+
+def model_correspondence(ctx):
+    """differential runs of the extracted Coq models of this property's cores against the real classes"""
+    import fat_alloc_corr
+    fat_alloc_corr.run(ctx)
+    SPEC['theorems'].update(getattr(fat_alloc_corr, 'SPEC_THEOREMS', {}))
+    SPEC['trusted_base'].extend(x for x in getattr(fat_alloc_corr, 'TRUSTED', []) if x not in SPEC['trusted_base'])
 
 
 def replay(ctx, obj):
